@@ -120,8 +120,9 @@ def check_case(acc: Acc, case):
         if len(pieces) >= 2:
             split = True
     if split:
-        acc.nontrivial(transport, case["keep"], T, R, count, repr(case["tx"]), CONTENT, case.get("mbap"), case.get("api", False), bool(case.get("aa55read")))
-    c = {"transport": transport, "keep": case["keep"], "T": T, "R": R, "script": script, "latency": case.get("latency", 0), "api": case.get("api", False)}
+        acc.nontrivial(transport, case["keep"], T, R, count, repr(case["tx"]), CONTENT, case.get("mbap"), case.get("api", False), bool(case.get("aa55read")), case.get("host"))
+    c = {"transport": transport, "keep": case["keep"], "T": T, "R": R, "script": script, "latency": case.get("latency", 0), "api": case.get("api", False),
+         "host": case.get("host", "192.0.2.1")}
     obs = netcase.run_single(c, command=cmd)
     out = obs.outcome
     fails = []
@@ -377,6 +378,10 @@ def positive_job(job):
                 case = {"transport": transport, "keep": keep, "T": T, "R": R, "count": count, "content": content,
                         "tx": [[[d1, ["head", s]], [d2, ["tail", s]]]]}
                 _apply(acc, case)
+                if (d1, d2) == (2, 8) and content == "pattern":
+                    # the inverter is addressed by name / by another spelling of its address (the peer's datagrams carry the numeric one)
+                    for host in netcase.HOSTS[1:]:
+                        _apply(acc, dict(case, host=host))
     CONTENT = "pattern"
     if transport == "aa55" and count >= 2:
         # the same with the library's AA55 register-read command class (its own validator parameters)
